@@ -161,6 +161,13 @@ for cls, hdr in ((M + "scsi_cdb_modesense6:ModeSense6", "mode_parameter_header6_
                 pg["sub_page_code"] = sub
             return dict(leaves(MS + hdr, "hdr"), mode_pages=[pg])
         case("%s %s page" % (cls.split(":")[1], pname), cls, mk)
+    # several mode pages in one response (page code 3Fh asks for all of them)
+    def mk2(hdr=hdr):
+        pgs = []
+        for i, (code, sub, tab) in enumerate((_PAGES["control"], _PAGES["disconnect-reconnect"])):
+            pgs.append(dict(leaves(MS + tab, "pg%d" % i), ps=S(("ps", i), 1), spf=0, page_code=code))
+        return dict(leaves(MS + hdr, "hdr"), mode_pages=pgs)
+    case("%s two mode pages (control, disconnect-reconnect)" % cls.split(":")[1], cls, mk2)
 # TransportID
 FS = M + "scsi_cdb_persistentreservein:PersistentReserveInReadFullStatus"
 
